@@ -6,11 +6,12 @@
      BarrierMergeQueue.v — MergeQueue / GlobalSort (any number of partitions, any block counts)
      BarrierStream.v     — ResultStream single-slot hand-off (any number of partitions / batches)
      BarrierHashJoin.v   — hash-join build / insert / probe / drain / abandon phases (any numbers of build and probe partitions)
+     BarrierNestedLoopJoin.v — nested-loop join: build / probe / left-drain barrier order (any numbers of partitions)
    `_refuted` theorems are counter-examples on the faithful model (reported as findings);
    `_partial` theorems are the strongest proved variant of a statement that does not hold in full. *)
 From Coq Require Import List Arith Bool.
-From GV Require Import lib.Lts model.ExecStack model.TaskSched model.BarrierMergeQueue model.BarrierStream model.BarrierHashJoin
-  proofs.ExecStackProofs proofs.TaskSchedProofs proofs.BarrierMQProofs proofs.BarrierStreamProofs proofs.BarrierHJProofs proofs.BarrierHJThms.
+From GV Require Import lib.Lts model.ExecStack model.TaskSched model.BarrierMergeQueue model.BarrierStream model.BarrierHashJoin model.BarrierNestedLoopJoin
+  proofs.ExecStackProofs proofs.TaskSchedProofs proofs.BarrierMQProofs proofs.BarrierStreamProofs proofs.BarrierHJProofs proofs.BarrierHJThms proofs.BarrierNLJProofs.
 Import ListNotations.
 
 (* ---- proofs/ExecStackProofs.v ---- *)
@@ -416,3 +417,42 @@ Theorem C04_hj_drain_deadlock_when_abandon_lost_refuted :
   forall s', hstep true true true hj_deadlock_state s' -> s' = hj_deadlock_state.
 Proof. exact hj_drain_deadlock_when_abandon_lost_refuted. Qed.
 Print Assumptions C04_hj_drain_deadlock_when_abandon_lost_refuted.
+
+
+(* ---- proofs/BarrierNLJProofs.v ---- *)
+Theorem C04_nlj_drain_only_after_all_probed :
+  forall nb np s,
+  nreach false nb np s -> 0 < drain_started s -> rem_probe s = 0 /\ can_still_match s = 0.
+Proof. exact nlj_drain_only_after_all_probed. Qed.
+Print Assumptions C04_nlj_drain_only_after_all_probed.
+
+Theorem C04_nlj_probe_only_after_build :
+  forall nb np s,
+  nreach false nb np s -> 0 < count is_nscan (nps s) -> rem_build s = 0 /\ count is_ncoll (nbs s) = 0.
+Proof. exact nlj_probe_only_after_build. Qed.
+Print Assumptions C04_nlj_probe_only_after_build.
+
+Theorem C04_nlj_inv_parked_implies_flag_unset :
+  forall nb np s,
+  nreach false nb np s ->
+  (0 < count is_nparkb0 (nps s) + count is_nparkb1 (nps s) -> 0 < rem_build s) /\
+  (0 < count is_nparkd (nps s) -> 0 < rem_probe s).
+Proof. exact nlj_inv_parked_implies_flag_unset. Qed.
+Print Assumptions C04_nlj_inv_parked_implies_flag_unset.
+
+Theorem C04_nlj_no_error_path :
+  forall nb np s,
+  nreach false nb np s -> count is_nberr (nbs s) = 0 /\ count is_nperr (nps s) = 0.
+Proof. exact nlj_no_error_path. Qed.
+Print Assumptions C04_nlj_no_error_path.
+
+Theorem C04_nlj_no_deadlock :
+  forall nb np s,
+  nreach false nb np s -> ~ nall_done s -> exists s', nstep false s s' /\ s' <> s.
+Proof. exact nlj_no_deadlock. Qed.
+Print Assumptions C04_nlj_no_deadlock.
+
+Theorem C04_nlj_drain_before_all_probed_refuted :
+  exists s, nreach true 1 2 s /\ 0 < drain_started s /\ 0 < can_still_match s /\ rem_probe s = 1.
+Proof. exact nlj_drain_before_all_probed_refuted. Qed.
+Print Assumptions C04_nlj_drain_before_all_probed_refuted.
